@@ -40,6 +40,12 @@ def run(chk):
     r = tv("Trace_Scan", "Trace_Scan.cfg", t, shards=10, tag="C05")
     chk.add_tv("scan", r)
     report_rejects(chk, r, sig, lambda ev, d: "%s result differs from the declarative scanner result" % ev["ev"])
+    # the same sessions in the overflow-checks profile (index / length arithmetic that only panics there)
+    t2 = record("scan", chk.path("scan-relchk.ndjson"), profile="relchk", n=500 if q else 8000, seed=chk.seed + 13)
+    hang_violation(chk, t2, "next_msg_frame / MsgFrameIter [overflow-checks]")
+    r2 = tv("Trace_Scan", "Trace_Scan.cfg", t2, shards=10, tag="C05-relchk")
+    chk.add_tv("scan[relchk]", r2)
+    report_rejects(chk, r2, lambda ev, d: "[overflow-checks] " + sig(ev, d), lambda ev, d: "[overflow-checks] %s result differs from the declarative scanner result / panicked" % ev["ev"])
     bufs = set()
     kinds = {"deliver0": 0, "deliver_after_skip": 0, "stop_incomplete": 0, "exhaust": 0, "iter_multi": 0}
     tags = {}
